@@ -384,6 +384,9 @@ impl<
             let staging_snapshot = self.get_staging_snapshot(key);
             let mut spilled = None;
 
+            #[cfg(feature = "verif")]
+            crate::verif::thread_point("kos_after_snapshot");
+
             if let Some(entry) = self.repr.cache.get(key) {
                 return (entry, staging_snapshot, spilled);
             }
@@ -394,6 +397,9 @@ impl<
                 .wait_or_work(key, || {
                     let entry =
                         self.fetch_entry(key, &staging_snapshot, &mut spilled);
+
+                    #[cfg(feature = "verif")]
+                    crate::verif::thread_point("kos_between_fetch_and_entry");
 
                     self.repr.cache.entry(key.clone(), |e| match e {
                         tiny_lfu::Entry::Vacant(vaccant_entry) => {
@@ -538,6 +544,9 @@ impl<
             ));
         }
 
+        #[cfg(feature = "verif")]
+        crate::verif::thread_point("kos_between_log_and_cache");
+
         // Step 2: Update Cache (Optimization)
         // We DO NOT load from DB if missing. We only update if present.
         let Some(entry) = self.repr.cache.get(key) else {
@@ -562,6 +571,9 @@ impl<
                 // If it grew too big, downgrade to TooLarge
                 if new_set.len() > 1024 {
                     drop(read_entry);
+
+                    #[cfg(feature = "verif")]
+                    crate::verif::thread_point("kos_before_downgrade");
 
                     let mut write_entry = entry.write();
                     *write_entry = Entry::TooLarge;
